@@ -300,3 +300,17 @@ Example c02_timed_wait_may_end_early :
   block_env 0 100 0 100 0 [Woken 40 false; Woken 70 false] /\
   block_loop 100 0 100 [Woken 40 false; Woken 70 false] = Some 70.
 Proof. exact block_early_after_two_wakeups. Qed.
+
+(* reserve_and_clear on a quiescent empty queue keeps the slot protocol state: the slot of the next push index carries the
+   push version of that index, whether the capacity changes (indexes AND slot versions rewound together) or not (clear()
+   only, nothing rewound).  Where the index stores and the futex reset loop stand in the function is regenerated
+   (rc_* of Gen_bounded_queue); index stores outside the capacity-changed branch break the proof. *)
+Require Import Verif.BQ.BQReserve.
+Theorem c02_reserve_and_clear_keeps_protocol_state : forall q same bits,
+  rq_empty q -> push_slot_ready q ->
+  let q' := reserve_and_clear q same bits in
+  rq_empty q' /\ push_slot_ready q' /\ (same = true -> q' = q) /\ (same = false -> r_push q' = 0 /\ r_bits q' = bits).
+Proof. exact reserve_and_clear_keeps_push_slot_ready. Qed.
+Print Assumptions c02_reserve_and_clear_keeps_protocol_state.
+Theorem c02_reserve_and_clear_same_capacity_is_clear : same_branch_is_clear = true.
+Proof. exact same_branch_is_clear_holds. Qed.
